@@ -11,6 +11,7 @@ package rules
 //   C11.fromto  _query_fromtostring: parse, move directives out, f once, restore, print
 //   C11.wrap    _eval_query_rewrite: try((user)) catch c, input | . , . | output, slurp plumbing, stage order
 //   C11.closed  wrapper queries handed to eval are built from a closed set of capture-free term constructors
+//   C11.inputs  the plain and the --repl evaluation of the command-line program get the same input expression for every option combination
 //
 // Not decided: the printer (*gojq.Query).String itself.
 
@@ -52,6 +53,7 @@ func runC11(r *fw.Run, p *fw.Program) {
 	c.fromto()
 	c.wrap()
 	c.closed()
+	c.inputs()
 	r.Assumption("(*gojq.Query).String (the printer of the gojq fork) parenthesises nothing by itself and prints what the AST says; its correctness for every precedence combination is not decided")
 }
 
